@@ -116,12 +116,12 @@ Print Assumptions C20_early_rename_rejected.
 (* ... and it is really unsafe exactly in the size class the search must cover: whenever bytes are pending in user
    space at the rename (payload size not absorbed by write-through), the prefix ending with the rename shows a strict
    prefix of the payload at FINAL *)
-Theorem C20_early_rename_partial : forall B f chunks s0,
+Theorem C20_early_rename_exposes_strict_prefix : forall B f chunks s0,
   names s0 TEMP = None -> fds s0 f = None -> snd (bw_ops B f [] chunks) <> [] ->
   exists k c, content_at (run (firstn k (producer_early B f chunks)) s0) FINAL = Some c /\
               c <> concat chunks /\ exists tail, tail <> [] /\ c ++ tail = concat chunks.
-Proof. exact early_rename_partial. Qed.
-Print Assumptions C20_early_rename_partial.
+Proof. exact early_rename_strict_prefix. Qed.
+Print Assumptions C20_early_rename_exposes_strict_prefix.
 
 (* non-vacuity of the pending-bytes hypothesis: B = 4, chunks of 3 + 3 + 2 bytes: the first two chunks are flushed when
    the next one no longer fits, the last 2 bytes are pending at the rename; with a payload that is a multiple of the write-through size
